@@ -170,7 +170,7 @@ Fixpoint pick_trans (v : list trans) (sum r : F32) : option N :=
 
 Definition sample_state (tp : tape) (p : nat) (st : state) (ev : event) : option N * nat :=
   match nth_error (strans st) (event_idx ev) with
-  | Some (Some v) => (pick_trans v f32_zero (f32_of_k (tp p)), S p)
+  | Some (Some v) => (pick_trans v f32_zero (f32_of_k (tp p mod 8388608)), S p)   (* the draw is 23 bits: `next_u32() >> 9` *)
   | _ => (None, p)
   end.
 
